@@ -11,4 +11,9 @@ CHECKS = {
   "For every limit kind (depth, loop, var), every L in a small set (and the defaults in the thorough tier), set through the API and through <config>, every construct that consumes the limit is generated at L-1, L, L+1, 2L and executed on the real transform: Err iff the parameter exceeds L, and on Ok the exact number of rendered marker elements (no truncation); orthogonally m siblings (up to 20L / 250 at the default limit) of 20 element kinds must never be rejected; the probe asserts the depth counter returns to 0.",
   "Trusted: generator arithmetic for the expected parameter; the verdict exactly at the boundary is not asserted for text-content leaves (element dispatched twice) and reuse chains through <specs>; error wording unmatched.",
   "DESIGN.md §4 C17"),
+ "C15": ("model_checking",
+  "explicit-state exploration of all scope programs up to a node bound on the real transform, compared with a reference interpreter for lexical scoping; forward references as grammar items enumerate every retry placement",
+  "Every forest of scope-relevant items (probes, four kinds of <var> assignment, <g>/<reuse> attribute scopes, loop, if, forward references, forward templates) with at most 4 (thorough: 5) nodes is rendered, executed and every probe value compared with a 60-line reference interpreter of the stated scoping rules; since forward references are items, every placement of a re-evaluation relative to scopes/assignments/probes within the bound is explored, and the scope/element/depth stacks are probed after every successful transform.",
+  "Trusted: the reference interpreter; loop/if modelled as transparent; programs that store an unresolved $reference into a variable are executed but not compared (their value depends on evaluation count, C14); violations inside the structurally defined deferred-side-effect class are attributed to the open finding.",
+  "DESIGN.md §4 C15"),
 }
